@@ -60,41 +60,46 @@ deriving Repr, DecidableEq
 def occupied (s : State) : List Pkt :=
   (List.range s.buf.length).filterMap (fun i => slot s i)
 
-/-- the `for { … n++ }` scan of the in-order branch: number of consecutive occupied slots
-starting at `absPos+1`.  The scan is cut at `len(buffer)` steps; `Props/C14` proves that under
-the state invariant the cut is never reached (that is the termination argument of the Go loop). -/
-def scanLen (s : State) : Nat :=
-  ((List.range s.buf.length).map (fun i => slot s (i + 1))).takeWhile Option.isSome |>.length
+/-- the `for { … n++ }` scan of the in-order branch, literally: `n` starts at 1 and advances while
+slot `absPos+n` is occupied.  The model cuts the loop after `fuel` iterations; `Props/C14` proves
+that under the state invariant the cut is never reached (the termination argument of the Go loop). -/
+def scanFrom (s : State) : Nat → Nat → Nat
+  | 0, n => n
+  | fuel + 1, n => if (slot s n).isSome then scanFrom s fuel (n + 1) else n
+
+/-- number of packets drained from the buffer after an in-order packet (`n - 1` in Go) -/
+def scanLen (s : State) : Nat := scanFrom s s.buf.length 1 - 1
 
 def clearAll (s : State) : List (Option Pkt) := List.replicate s.buf.length none
 
-/-- `reorder` -/
+/-- packets drained after an in-order packet (`ret[1:]` of the last branch of `reorder`) -/
+def drainTail (s : State) : List Pkt := (List.range (scanLen s)).filterMap (fun i => slot s (i + 1))
+
+/-- the buffer with the drained slots cleared -/
+def drainBuf (s : State) : List (Option Pkt) :=
+  (List.range (scanLen s)).foldl (fun b i => b.set (slotIdx s (i + 1)) none) s.buf
+
+/-- `reorder`.  (`rr.negativeCount = 0` is executed before the last three branches; the helpers
+only read `buffer` and `absPos`, so it is applied to the result here.) -/
 def reorder (s : State) (p : Pkt) : State × Out :=
   let n := s.buf.length
   let r := relPos p.seq s.last
   if r < 0 then
-    let nc := s.negCount + 1
-    if nc > n then
+    if s.negCount + 1 > n then
       ({ s with negCount := 0, buf := clearAll s }, { pkts := [p], lost := 0, restart := true })
     else
-      ({ s with negCount := nc }, { pkts := [], lost := 0 })
+      ({ s with negCount := s.negCount + 1 }, { pkts := [], lost := 0 })
+  else if r ≥ (n : Int) then
+    ({ s with negCount := 0, buf := clearAll s },
+     { pkts := occupied s ++ [p], lost := (r - ((occupied s).length + 1 : Nat) + 1).toNat })
+  else if r ≠ 0 then
+    match s.buf.getD (slotIdx s r.toNat) none with
+    | some _ => ({ s with negCount := 0 }, { pkts := [], lost := 0 })
+    | none   => ({ s with negCount := 0, buf := s.buf.set (slotIdx s r.toNat) (some p) },
+                 { pkts := [], lost := 0 })
   else
-    let s := { s with negCount := 0 }
-    if r ≥ (n : Int) then
-      let occ := occupied s
-      ({ s with buf := clearAll s },
-       { pkts := occ ++ [p], lost := (r - (occ.length + 1 : Nat) + 1).toNat })
-    else if r ≠ 0 then
-      let i := slotIdx s r.toNat
-      match s.buf.getD i none with
-      | some _ => (s, { pkts := [], lost := 0 })
-      | none   => ({ s with buf := s.buf.set i (some p) }, { pkts := [], lost := 0 })
-    else
-      let k := scanLen s
-      let tail := (List.range k).filterMap (fun i => slot s (i + 1))
-      let cleared := (List.range k).foldl (fun b i => b.set (slotIdx s (i + 1)) none) s.buf
-      ({ s with buf := cleared, absPos := slotIdx s (k + 1) },
-       { pkts := p :: tail, lost := 0 })
+    ({ s with negCount := 0, buf := drainBuf s, absPos := slotIdx s (scanLen s + 1) },
+     { pkts := p :: drainTail s, lost := 0 })
 
 /-- the per-delivered-packet loop of `ProcessPacket2` (sequence-number cycles) -/
 def advance (s : State) (p : Pkt) : State :=
